@@ -38,6 +38,7 @@ class Sources:
         self.binops = set()
         self.args = set()    # arg locals reached
         self.indirect = False  # depends on an indirect / user callback call
+        self.via = {}        # callee path -> list of (bb, term): calls whose returned struct was looked into field by field
 
     def call_names(self):
         return set(self.calls)
@@ -95,10 +96,53 @@ def sources(body, operand, transparent=TRANSPARENT_PREFIX, follow_phi=True, maxd
                     if t["k"] == "switch":
                         go_op(t["discr"], depth + 1)
 
+    def field_summary(p, depth):
+        """`x.f` where x is the result of a call to a crate function that builds and returns a struct: what the function puts
+        into field f (its own calls / loads / constants; its parameters are followed into the call's arguments)"""
+        pj = p.get("proj") or []
+        if len(pj) != 1 or pj[0]["k"] != "field" or depth > maxdepth - 4:
+            return False
+        d = body.single_def(p["l"])
+        for _ in range(3):
+            if d and d[0] == "stmt" and d[3]["k"] == "assign" and d[3]["rv"]["k"] == "use" and d[3]["rv"]["op"]["k"] in ("copy", "move") \
+                    and not d[3]["rv"]["op"]["p"].get("proj"):
+                d = body.single_def(d[3]["rv"]["op"]["p"]["l"])
+        if not d or d[0] != "call" or d[3]["f"]["k"] != "fn":
+            return False
+        t = d[3]
+        cp = callee_path(t)
+        cb = body.facts.bodies.get(cp) if getattr(body, "facts", None) is not None else None
+        if cb is None or cb is body or transparent_call(t) or (cp, pj[0].get("name")) in seen:
+            return False
+        seen.add((cp, pj[0].get("name")))
+        S.via.setdefault(cp, []).append((d[1], t))
+        done = False
+        for i, k, st in cb.stmts():
+            if st["k"] != "assign" or st["rv"]["k"] != "aggregate" or st["rv"].get("kind") == "closure":
+                continue
+            rv = st["rv"]
+            if not rv.get("fields") or pj[0].get("name") not in rv["fields"] or rv.get("adt") != pj[0].get("adt"):
+                continue
+            op = rv["ops"][rv["fields"].index(pj[0]["name"])]
+            S2 = sources(cb, op, transparent=transparent, follow_phi=follow_phi, maxdepth=max(10, maxdepth // 2))
+            for c, lst in S2.calls.items():
+                S.calls.setdefault(c, []).extend(lst)
+            S.loads |= S2.loads
+            S.consts.extend(S2.consts)
+            S.binops |= S2.binops
+            S.indirect = S.indirect or S2.indirect
+            for a in S2.args:
+                if a - 1 < len(t["args"]):
+                    go_op(t["args"][a - 1], depth + 1)
+            done = True
+        return done
+
     def go_place(p, depth):
         lf = last_field(p)
         if lf:
             S.loads.add((lf["name"], lf.get("adt")))
+            if field_summary(p, depth):
+                return      # field-precise: the other fields of the returned struct are not part of this value
         go_local(p["l"], depth)
         for e in p.get("proj", []):
             if e["k"] == "index":
@@ -127,6 +171,34 @@ def sources(body, operand, transparent=TRANSPARENT_PREFIX, follow_phi=True, maxd
                 go_op(x, depth)
 
     go_op(operand, 0)
+    return S
+
+
+def sources_x(F, body, operand, depth=2, **kw):
+    """sources() extended across the call boundary for private functions: a parameter that is reached is followed into the
+    argument expressions of the (at most three) call sites of the function, so that a quantity a refactoring now computes
+    in the caller and passes in (`new_items = items.checked_add(additional)`) is still seen for what it is. The result has
+    an extra attribute `arg_names`: the names of all parameters reached in any frame."""
+    S = sources(body, operand, **kw)
+    S.arg_names = set(body.locals[a].get("name") for a in S.args)
+    if depth <= 0 or not S.args:
+        return S
+    sites = [(cb, t) for cb in F.bodies.values() for _, t in cb.calls() if callee_path(t) == body.path]
+    if not (1 <= len(sites) <= 3):
+        return S
+    for cb, t in sites:
+        for a in sorted(S.args):
+            if a - 1 < len(t["args"]):
+                Sc = sources_x(F, cb, t["args"][a - 1], depth - 1, **kw)
+                for c, lst in Sc.calls.items():
+                    S.calls.setdefault(c, []).extend(lst)
+                for c, lst in Sc.via.items():
+                    S.via.setdefault(c, []).extend(lst)
+                S.loads |= Sc.loads
+                S.consts.extend(Sc.consts)
+                S.binops |= Sc.binops
+                S.indirect = S.indirect or Sc.indirect
+                S.arg_names |= Sc.arg_names
     return S
 
 
